@@ -393,3 +393,16 @@ Proof.
     + cbn [F.py_str bind] in Hf. rewrite <- str_of_Z_models_agree in Hf. apply (Tail (str_of_Z z)); assumption.
     + cbn [F.py_str bind] in Hf. apply (Tail s); assumption.
 Qed.
+
+(** Non-vacuity: both models answer (and agree) on a nested list joined with an
+    integer separator, and on the filters of the agreement theorem. *)
+Example models_agree_example :
+  let v := VList [VInt 12; VList [VStr [97%N]; VBool true]; VNil] in
+  emb v = Some (F.FList [F.FInt 12; F.FList [F.FStr [97%N]; F.FBool true]; F.FNil])
+  /\ apply_filter FJoin v [VInt 0] = EOk (VStr [49; 50; 48; 97; 48; 116; 114; 117; 101; 48]%N)
+  /\ FiltersSeq.join_f (F.FList [F.FInt 12; F.FList [F.FStr [97%N]; F.FBool true]; F.FNil]) (Some (F.FInt 0))
+     = Ok (F.FStr [49; 50; 48; 97; 48; 116; 114; 117; 101; 48]%N)
+  /\ apply_filter FUpcase v [] = EOk (VStr [49; 50; 65; 84; 82; 85; 69]%N)
+  /\ FiltersStr.upcase_f (F.FList [F.FInt 12; F.FList [F.FStr [97%N]; F.FBool true]; F.FNil])
+     = Ok (F.FStr [49; 50; 65; 84; 82; 85; 69]%N).
+Proof. vm_compute. repeat split; reflexivity. Qed.
